@@ -71,6 +71,13 @@ func verifC19Storage(k int) {
 		n++
 	}
 	verifAssert(s.GetCacheSize() == n, "c19: the cache holds exactly the rules that were retrieved successfully")
+	// closing the storage does not take away what is already in memory
+	_ = s.Close()
+	if haveA != nil {
+		verifReach("c19.afterclose")
+		r, e := s.RetrieveRule(idxA)
+		verifAssert(e == nil && r == haveA, "c19: a rule materialised before Close is still served after it")
+	}
 	// an unknown list id is an error, not a crash
 	_, e := s.RetrieveRule(ruleListIdxToStorageIdx(4, 0))
 	verifAssert(e != nil, "c19: an unknown list yields an error")
